@@ -15,7 +15,6 @@ import (
 
 func (e *Engine) extraDecls(body string) []string { return nil }
 
-
 type RunConfig struct {
 	Repo, Spec, Work string
 	Prop             string
